@@ -35,6 +35,7 @@ var (
 	ErrDBNotSelected     = errors.New("database not been selected")
 	ErrDBNameInvalid     = errors.New("invalid database name")
 	ErrCatalogReadOnly   = errors.New("catalog tables cannot be changed directly")
+	ErrRowIDsExhausted   = errors.New("row ids exhausted")
 	ErrFieldAmbiguous    = errors.New("field is ambiguous")
 	ErrFieldNotFound     = errors.New("field not found")
 	ErrTableAlreadyExist = errors.New("table already exists")
@@ -455,6 +456,10 @@ func (rs *RelationService) createTable(r *Relation, tableName string) error {
 	// inserted, so that a refused CREATE TABLE leaves no trace
 	if err := checkCatalogRows(r, tableName); err != nil {
 		return err
+	}
+	// ... and neither may the catalog rows run out of row ids half-way
+	if uint64(rs.fs.getLastKey())+1+uint64(len(r.Fields)) > math.MaxUint32 {
+		return ErrRowIDsExhausted
 	}
 
 	pg, err := rs.createPage()
